@@ -49,9 +49,10 @@ fn main() {
                 "C14" => c14::replay(cases, verd),
                 "C15" => c15::replay(cases, verd),
                 "C16" => c16::replay(cases, verd),
-                "C17" => c17::replay(cases, verd),
+                "C17" => c17::replay(cases, verd, args.get(5)),
                 "C20" => c20::replay(cases, verd),
                 "X01" => x01::replay(cases, verd),
+                "C18" if args.get(5).map(|s| s == "extreme").unwrap_or(false) => c18::replay_extreme(cases, verd),
                 "C18" => c18::replay(cases, verd, args.get(5).and_then(|s| s.parse().ok()).unwrap_or(2)),
                 _ => {
                     eprintln!("no replay table for {}", prop);
